@@ -665,6 +665,23 @@ pub fn gen_and_run(seed: u64, index: u64, scratch: &str, cfg: &GenCfg, fenced: &
         let t = transpile(&mut rng, &h, cfg.cli_permille);
         push(&mut sc, &mut h, t);
     }
+    // last act, sometimes: an obstacle in the output directory, then a run
+    if !cur_files.is_empty() && rng.chance(1, 6) {
+        let f = rng.pick(&cur_files).clone();
+        let m = mirrored(&f.path, &sc.layout);
+        let entry = if rng.chance(1, 2) || !m.contains('/') {
+            // a directory where the mirrored file must go
+            SrcFile { path: format!("{m}/"), text: String::new() }
+        } else {
+            // a file where a directory is needed
+            let d = std::path::Path::new(&m).parent().unwrap().to_string_lossy().into_owned();
+            SrcFile { path: d, text: "not a directory\n".into() }
+        };
+        // only when nothing is there yet (a directory cannot be put over an existing file here)
+        push(&mut sc, &mut h, Op::Prepopulate { entries: vec![entry] });
+        let t = transpile(&mut rng, &h, 0);
+        push(&mut sc, &mut h, t);
+    }
     if rng.chance(1, 2) {
         if let Some(r) = visibility_relation(&mut rng, fenced) {
             sc.relations.push(r);
@@ -1118,6 +1135,7 @@ pub fn run_check(tier_name: &str, seed: u64, verif_dir: &str) -> i32 {
             "recoveries_checked": stats.recoveries_checked,
             "after_failed_run": {"tree_untouched": stats.err_tree_untouched, "prefix_of_expected": stats.err_tree_prefix, "other": stats.err_tree_other, "crash_between_two_file_writes": stats.crash_between_writes},
             "overwrote_longer_file": stats.overwrote_longer,
+            "steps_with_obstacle_in_output_dir": stats.steps_with_obstacle,
             "deleted_in_target_tolerated": stats.deleted_in_target_tolerated,
             "single_faulty_file_rejections_checked": stats.single_faulty_rejected,
             "single_faulty_by_kind": stats.faulty_kinds_checked,
